@@ -249,3 +249,58 @@ class _PD:
 
 
 pd = _PD()
+
+
+# ---- in-memory "feather" files (C15) --------------------------------------------------------------------
+FILES = {}                 # path -> (columns, rows, index)
+WRITE_LOG = []             # (path, ok)
+FAIL_WRITES = []           # indices (0-based count of to_feather calls) that must fail
+
+
+def reset_files():
+    FILES.clear()
+    del WRITE_LOG[:]
+    del FAIL_WRITES[:]
+
+
+def _to_feather(self, path):
+    n = len(WRITE_LOG)
+    if n in FAIL_WRITES:
+        WRITE_LOG.append((path, False))
+        raise OSError("injected write failure")
+    WRITE_LOG.append((path, True))
+    FILES[path] = (list(self.columns), [list(r) for r in self._rows])
+
+
+def read_feather(path):
+    if path not in FILES:
+        raise FileNotFoundError(path)
+    cols, rows = FILES[path]
+    d = DataFrame()
+    d.columns = list(cols)
+    d._rows = [list(r) for r in rows]
+    d.index = list(range(len(rows)))
+    return d
+
+
+DataFrame.to_feather = _to_feather
+_PD.read_feather = staticmethod(read_feather)
+
+
+class _OsPathShim:
+    """os.path for lian.util.loader inside the symbolic run: exists() answers from FILES."""
+    import os.path as _real
+
+    def exists(self, p):
+        return p in FILES
+
+    def __getattr__(self, name):
+        return getattr(self._real, name)
+
+
+class OsShim:
+    import os as _real
+    path = _OsPathShim()
+
+    def __getattr__(self, name):
+        return getattr(self._real, name)
